@@ -313,15 +313,17 @@ func (m *Manager) AddAllowedRange(network *net.IPNet) error {
 
 	ones, _ := network.Mask.Size()
 
+	// LPM trie keys are matched bit by bit from the first data byte: the address
+	// must be in network byte order, as the program's lookup key (ip->saddr) is.
 	type lpmKey struct {
 		Prefixlen uint32
-		IP        uint32
+		IP        [4]byte
 	}
 
 	key := lpmKey{
 		Prefixlen: uint32(ones),
-		IP:        binary.BigEndian.Uint32(ip4),
 	}
+	copy(key.IP[:], ip4)
 
 	var value uint8 = 1
 	if err := m.ranges.Put(&key, &value); err != nil {
